@@ -522,6 +522,18 @@ fn handle(line: &str) -> String {
         "emt" => run_emt(arg(1), arg(2), &f[3.min(f.len())..]),
         "dec" => run_dec(arg(1), &unhex_bytes(arg(2))),
         "cnt" => run_cnt(arg(1), &unhex(arg(2))),
+        "erd" => {
+            // first error of plain iteration: Display text, marker, info
+            let text = unhex(arg(1));
+            let mut out = "none".to_string();
+            for r in Parser::new_from_str(&text) {
+                if let Err(e) = r {
+                    out = format!("{} {} {}", hex(&e.to_string()), mk(e.marker()), hex(e.info()));
+                    break;
+                }
+            }
+            out
+        }
         "get" => tree::run_get(&f[1.min(f.len())..]),
         "f64" => {
             // helper: parse a decimal text with Rust's f64::from_str and print canonical bits
